@@ -28,6 +28,7 @@ import multiprocessing
 import os
 import random
 import re
+import signal
 import time
 from fractions import Fraction
 
@@ -808,7 +809,33 @@ def write_book(path, formula, extra=None, at=FORMULA_AT, sheet=0):
     lib.write_workbook({'sheets': sheets}, path)
 
 
+CPU_LIMIT = 20.0      # seconds of CPU for one translation (a normal one takes ~0.01 s)
+
+
+class _CpuLimit(Exception):
+    pass
+
+
+def _on_alarm(signum, frame):
+    raise _CpuLimit()
+
+
+def limited_translate(path, entry=None, safety=False, limit=None):
+    """lib.translate under a CPU-time limit (ITIMER_VIRTUAL: independent of the load of the machine)"""
+    old = signal.signal(signal.SIGVTALRM, _on_alarm)
+    signal.setitimer(signal.ITIMER_VIRTUAL, limit or CPU_LIMIT)
+    try:
+        return lib.translate(path, entry=entry, safety=safety)
+    except _CpuLimit:
+        return codec.Raised('_CpuLimit', 'no outcome within the CPU limit', ())
+    finally:
+        signal.setitimer(signal.ITIMER_VIRTUAL, 0)
+        signal.signal(signal.SIGVTALRM, old)
+
+
 def classify(raised):
+    if raised.cls == '_CpuLimit':
+        return ('timeout', f'no outcome within {CPU_LIMIT:.0f} s of CPU time')
     # outcome classes of the property: value / library exception / foreign exception.  E2PyclParserException is what the
     # statement names; the sibling E2PyclCellException (unknown sheet title, row 0) is also a refusal by the library.
     if raised.isa('E2PyclException'):
@@ -844,7 +871,7 @@ def observe(formula, tmpdir, mode='file', safety=False):
     _SEQ += 1
     path = os.path.join(tmpdir, 'f%d_%d.xlsx' % (os.getpid(), _SEQ))
     write_book(path, formula)
-    t = lib.translate(path, entry=(0, 'Z', '1') if mode == 'entry' else None, safety=safety)
+    t = limited_translate(path, entry=(0, 'Z', '1') if mode == 'entry' else None, safety=safety)
     try:
         os.unlink(path)
     except OSError:
@@ -965,6 +992,8 @@ def judge(formula, out, ref=None):
     ref = ref or reference(formula)
     tag = root_tag(formula)
     kind = out[0]
+    if kind == 'timeout':
+        return ('C05.no_outcome.cpu_limit', f'{formula[:80]!r} ({ref[0]}) -> {out[1]}; expected a class or E2PyclParserException')
     if ref[0] == 'invalid':
         if kind == 'reject':
             return None
@@ -1389,6 +1418,7 @@ def check_separators(tier, rng):
 
 
 # ====================================================================================================== check 5: contexts
+DEEP_LIMIT = 5.0
 MALFORMED = ['=1 2', '=1+', '=1+2)', '=(1+2', '=SUM(1,2) 4', '=A1 B1', '=IF(A1>0,1,2,4)', '=1,', '=1%%', '=SUM(1,2)+', '="a" "b"',
              '=DAY(D1,2)', '=TODAY(1)', '=1**2']
 
@@ -1480,7 +1510,7 @@ def _ctx_case(case):
             n = case['n']
             f = '=' + '+'.join(['1'] * n) + case.get('tail', '')
             write_book(path, f)
-            t = lib.translate(path, entry=(0, 'Z', '1') if case.get('entry') else None)
+            t = limited_translate(path, entry=(0, 'Z', '1') if case.get('entry') else None)
             out = classify(t) if isinstance(t, codec.Raised) else observe_text(t)
             exp = 'reject' if case.get('tail') else n
             ok = (out[0] == 'reject') if case.get('tail') else (out[0] == 'reject' or (out[0] == 'value' and out[1] == n))
@@ -1501,8 +1531,10 @@ def _ctx_case(case):
             if case.get('cut'):
                 f = f[:-case['cut']]
             write_book(path, f)
-            t = lib.translate(path, entry=(0, 'Z', '1') if case.get('entry') else None)
+            t = limited_translate(path, entry=(0, 'Z', '1') if case.get('entry') else None, limit=DEEP_LIMIT)
             out = classify(t) if isinstance(t, codec.Raised) else observe_text(t)
+            if out[0] == 'timeout':
+                out = ('timeout', f'no outcome within {DEEP_LIMIT:.0f} s of CPU time')
             malformed = bool(case.get('tail') or case.get('cut'))
             ok = out[0] == 'reject' or (not malformed and out[0] == 'value' and out[1] == exp)
             return ok, f'{f[:40]!r}...{f[-12:]!r} ({kind} {n}, {len(f)} characters' + (', malformed' if malformed else '') + f') -> {out[0]} ' \
@@ -1521,7 +1553,7 @@ def ctx_cases(tier):
     cases = []
     locs = [(0, 'Z', 2), (0, 'A', 150), (0, 'B', 1001), (0, 'AAA', 1), (0, 'AB', 101), (1, 'A', 3), (1, 'AA', 120)]
     if tier == 'thorough':
-        locs += [(0, 'XFD', 2), (1, 'C', 5000), (0, 'ZZ', 27), (0, 'AAA', 1001)]
+        locs += [(0, 'XFD', 2), (1, 'C', 5000), (0, 'ZZ', 27)]
     for bad in MALFORMED if tier == 'thorough' else MALFORMED[:8]:
         for at in locs:
             cases.append({'kind': 'location', 'bad': bad, 'at': list(at), 'safety': len(cases) % 3 == 0, 'key': 'C05.context.location'})
@@ -1544,7 +1576,7 @@ def ctx_cases(tier):
         cases.append({'kind': 'long', 'n': n, 'key': 'C05.long_formula'})
         cases.append({'kind': 'long', 'n': n, 'tail': ')', 'key': 'C05.long_formula'})
         cases.append({'kind': 'long', 'n': n, 'tail': ' 1', 'entry': True, 'key': 'C05.long_formula'})
-    for kind, ns in (('nest', (2, 5, 10, 20, 40, 64)), ('parens', (2, 5, 10, 30, 64)), ('longtext', (10, 51, 300, 5000))):
+    for kind, ns in (('nest', (1, 2, 3, 4, 5, 6, 7, 8, 12)), ('parens', (1, 2, 4, 6, 8, 10, 12, 14, 16, 20)), ('longtext', (10, 51, 300, 5000))):
         for n in ns:
             cases.append({'kind': kind, 'n': n, 'key': 'C05.deep_formula.' + kind})
             cases.append({'kind': kind, 'n': n, 'tail': ')', 'entry': True, 'key': 'C05.deep_formula.' + kind})
@@ -1563,8 +1595,8 @@ def check_contexts(tier, rng):
                      + '), the second sheet; read from a well-formed entry cell directly / through areas / whole columns / criteria ranges / '
                        'the untaken IF branch / another sheet; one Parser object re-used over good, malformed, good workbooks (with and '
                        'without entry cell, get_translation called once or twice); same text on two sheets; array-formula cells; chains '
-                       '=1+1+...+1 of 20..' + ('4000' if tier == 'thorough' else '1000') + ' terms, SUM nested 2..64 deep, brackets '
-                       'nested 2..64 deep, text literals of 10..5000 characters, each complete, with one trailing token, and cut by one character',
+                       '=1+1+...+1 of 20..' + ('4000' if tier == 'thorough' else '1000') + ' terms, SUM nested 1..12 deep, brackets '
+                       'nested 1..20 deep (CPU limit 5 s each), text literals of 10..5000 characters, each complete, with one trailing token, and cut by one character',
             'rule': 'one evaluation = one scenario; a malformed text that is translated (whole file, or reachable from the entry cell) must '
                     'raise E2PyclParserException in every place and API order, a well-formed one must keep its value; a re-used Parser '
                     'must not hand out the previous translation after a rejection',
